@@ -497,7 +497,24 @@ def gen_loader(rng):
                 err = rng.choice([0, 0, 0, 3, 5])
                 reply.append([t, err, rng.sample(range(0, 16), rng.randrange(0, 5)) if err == 0 else []])
         replies.append(reply)
-    return {"kind": "loader", "asked": asked, "replies": replies}
+    sc = {"kind": "loader", "asked": asked, "replies": replies}
+    if rng.random() < 0.75:
+        # brokers are listed and partitions have leaders - except these, which are leaderless right now
+        # (broker just died / election in progress / topic just expanded): some of a topic's partitions,
+        # all of them, or none
+        pairs = sorted({(t, p) for r in replies for t, _e, ps in r for p in ps})
+        mode = rng.randrange(4)
+        if mode == 0 or not pairs:
+            lless = []
+        elif mode == 1:
+            lless = [list(x) for x in pairs if rng.random() < 0.35]
+        elif mode == 2:
+            t0 = rng.choice(pairs)[0]
+            lless = [list(x) for x in pairs if x[0] == t0]
+        else:
+            lless = [list(rng.choice(pairs))]
+        sc["leaderless"] = lless
+    return sc
 
 
 def run_loader_sc(sc, batch, res):
@@ -509,12 +526,18 @@ def run_loader_sc(sc, batch, res):
     rtok = "/".join("-" if not r else "|".join("%s=%d:%s" % (tstr(t), e, tints(ps)) for t, e, ps in r) for r in replies)
     atok = ",".join(tstr(t) for t in asked)
     try:
-        kind, val, n = assign_leader.run_loader(asked, [[(t, e, ps) for t, e, ps in r] for r in replies])
+        lless = None if sc.get("leaderless") is None else {(t, p) for t, p in sc["leaderless"]}
+        kind, val, n = assign_leader.run_loader(asked, [[(t, e, ps) for t, e, ps in r] for r in replies], lless)
     except Exception as e:  # noqa: BLE001
         kind, val, n = "error", "driver %s: %s" % (type(e).__name__, e), 0
     if kind == "snap":
         line = "snap %s after %d" % (tmap(val), n)
         batch.add("mon-load %s %s" % (atok, tmap(val)), None, ("mon-load", sc, None))
+        if 1 <= n <= len(replies):
+            last = replies[n - 1]
+            batch.add("mon-loadfull %s %s %s" % (atok, "-" if not last else "|".join("%s=%d:%s" % (tstr(t), e, tints(ps)) for t, e, ps in last), tmap(val)), None, ("mon-loadfull", sc, None))
+            lp = sc.get("leaderless")
+            res.count("loader_leaderless=%s" % ("no-brokers" if lp is None else "none" if not lp else "some" if any(t in asked for t, _p in lp) else "other-topics"))
         res.nontrivial(["loader", asked, replies])
     elif kind == "pending":
         line = "pending"
@@ -554,6 +577,10 @@ def settle(batch, got, res, trace=None):
                         res.monitor_failures.append({"what": "%s: %s" % (what, text), "scenario": sc, "tags": ["gen-" + tag]})
                     else:
                         res.monitor_failures.append({"what": text, "scenario": sc, "tags": [tag]})
+        elif kind == "mon-loadfull":
+            res.traces_validated += 1
+            if g1 != "ok":
+                res.monitor_failures.append({"what": "_load_topic_partitions fired with a snapshot that does not list exactly the partitions the metadata reply lists for a requested topic (a partition left out is assigned to no member)", "scenario": sc, "tags": ["loader-leaves-partitions-out"]})
         elif kind == "mon-load":
             res.traces_validated += 1
             if g1 != "ok":
